@@ -100,6 +100,7 @@ class C05(Prop):
                 fa = G.Arr(str(1 + j), list(ref.shape), ref.dims)
             lines.append(fa.line())
             feats.append((fa, link))
+        units = G.blanked(rnd, units, self._routes)
         lines.append('tag %d %s %d %s %d %s' % (len(pos), ' '.join(G.enc(p) for p in pos), len(ext_l), ' '.join(G.enc(e) for e in ext_l),
                                                 len(units), ' '.join(G.encs(u) for u in units)))
         lines[-1] = ' '.join(lines[-1].split())
@@ -130,6 +131,11 @@ class C05(Prop):
                     lines.append('feature %d %s' % (j, m))
             if rnd.random() < 0.12:
                 lines += G.all_routes(rnd, 'feature', [j], rc)
+        if rnd.random() < 0.5:
+            lines += G.direct_queries(rnd, ref, rc)
+        if flavour not in ('noref',) and kinds != ['A'] and rnd.random() < 0.35:
+            lines.append('wtagged 0 %s' % rnd.choice(G.MODES))          # the region written through the view and read back
+            rc['wtagged'] = rc.get('wtagged', 0) + 1
         if rnd.random() < 0.2:
             lines.append('feature %d %s' % (len(feats) + rnd.choice([0, 1, 3]), rnd.choice(G.MODES)))   # feature index out of range
         tag = '%s:%d%s' % (flavour, rank, ''.join(kinds))
@@ -141,6 +147,7 @@ class C05(Prop):
         # which public entry points exist and how many query lines of this run went through each
         ctx['ev']['entry_points'] = {k: G.ROUTES[k] for k in ('tagged', 'feature')}
         ctx['ev']['entry_points_plain'] = {k: G.PLAIN_ROUTES[k] for k in ('offcnt', 'taggeda')}
+        ctx['ev']['entry_points_direct'] = {k: G.DIRECT[k] for k in ('dimunit', 'indata', 'pti1', 'ptiv', 'wtagged', 'units-with-blanks', 'FC-dimension')}
         ctx['ev']['query_lines_per_route'] = dict(sorted(self._routes.items()))
         return []
 
